@@ -108,7 +108,7 @@ def check (j : Json) : Except String (Option String) := do
     -- a governance parameter change: only the parameters move (`Event.setParams` of C15)
     let p : Params ← fromJson? pj
     if !ok then return (diff pre post).map (fun d => "failed-message-changed-state " ++ d)
-    return diff { pre with params := p } post
+    return allSome [diff { pre with params := p } post, cmpField "params" p post.params]
   let op : Op ← fromJson? opj
   match step pre h now op with
   | none =>
